@@ -143,6 +143,10 @@ def rev_meta(rev):
 
 FIX = None
 TCP_PATHS = 40
+KNOWN_DEFECT_PATHS = (
+    (("lock",), ("settag", "t1", 1), ("pull", "X", 0), ("settag", "t1", 3)),     # t2, merged by the pull, is lost
+    (("lock",), ("pull", "X", 0), ("deltag", "t1"), ("pull", "X", 0)),           # t1 is not merged again
+)
 # TLC -continue reports the FIRST violated invariant of a state: most specific witnesses first
 WITNESSES = ("WitnessCommitOnSide", "WitnessNestedLock", "WitnessPendingConfig", "WitnessGhostTag", "WitnessTagConflict",
              "WitnessDiverged", "WitnessOffMainline")
@@ -451,6 +455,52 @@ def first_difference(acts, ref, other):
     return None
 
 
+# Tag operations of a RemoteBranch go two ways: set_tag / delete_tag / tag reads / push INTO it use RemoteBranch's own tag
+# cache and the Branch.set_tags_bytes verb; pull INTO it and push OUT of it run on the VFS fallback object _real_branch.
+TAG_VERB_WRITERS = {"settag", "deltag", "push"}
+TAG_VERB_USERS = TAG_VERB_WRITERS | {"tags", "pullout"}
+TAG_REAL_WRITERS = {"pull"}
+TAG_REAL_USERS = TAG_REAL_WRITERS | {"pushout"}
+
+
+def stale_tag_cache_class(acts, k, mode, what, x, y):
+    """Input class of the known defect 'a write-locked RemoteBranch and its _real_branch cache the tags independently':
+    the first local/remote difference is at a tag operation made while the client holds the write lock, after a tag
+    WRITE that went the other way (verb vs _real_branch) under the same lock, and concerns nothing but tags.
+    Returns the signature's input-class part, or None."""
+    if mode not in ("vfs", "tcp"):
+        return None
+    held, since = 0, None
+    for i, a in enumerate(acts[:k]):
+        if a[0] == "lock":
+            held += 1
+            if held == 1:
+                since = i
+        elif a[0] == "unlock" and held:
+            held -= 1
+    if not held:
+        return None
+    op = acts[k][0]
+    before = {a[0] for a in acts[since:k]}
+    if op in TAG_REAL_USERS and before & TAG_VERB_WRITERS:
+        cls = "real-branch-tag-use-after-verb-tag-write"
+    elif op in TAG_VERB_USERS and before & TAG_REAL_WRITERS:
+        cls = "verb-tag-use-after-real-branch-pull"
+    else:
+        return None
+    if what == "state":
+        if {f for f in x[2] if x[2][f] != y[2].get(f)} - {"t1", "t2"}:
+            return None
+    elif what == "returns":
+        if x[0] or y[0]:
+            return None
+        if op != "tags" and (x[1][:4] != y[1][:4] or x[1][12:] != y[1][12:]):
+            return None                   # revnos / revision ids / fetched revisions differ too
+    else:
+        return None
+    return cls
+
+
 def replay_paths(sub, chunk):
     fx = FIX
     for acts, modes in chunk:
@@ -470,7 +520,9 @@ def replay_paths(sub, chunk):
             if d is not None:
                 k, what, detail = d
                 op = acts[k][0] if k < len(acts) else "-"
-                sub.violation("%s-differ:%s:%s:%s" % (what, op, mode, detail),
+                cls = stale_tag_cache_class(acts, k, mode, what, runs["local"][k], runs[mode][k]) if k < len(acts) else None
+                sub.violation("tags-differ:RemoteBranch-vs-_real_branch-tag-cache:write-locked:%s" % cls if cls
+                              else "%s-differ:%s:%s:%s" % (what, op, mode, detail),
                               "step %d %s through bzr:// (%s) %s: local %s, remote %s" % (
                                   k + 1, acts[k], mode, what, runs["local"][k][:2] if what == "returns" else runs["local"][k][2],
                                   runs[mode][k][:2] if what == "returns" else runs[mode][k][2]),
@@ -565,8 +617,9 @@ def graph_paths(ctx, vfs, maxlen, max_len):
 
 def corrupted(rows):
     """Binding self-test rows: copies of a recorded row with (1) one value of the first bzr:// run changed - TLC must
-    report that run as differing from the local one - and (2) the same stored-state field changed in every run - TLC
-    must report drift from the specification but no local/remote difference."""
+    report that run as differing from the local one (and no drift: the local run is as specified) - and (2) the same
+    stored-state field changed in every run - TLC must report drift from the specification but no local/remote
+    difference."""
     import copy
     row = next((r for r in rows if len(r["acts"]) >= 3 and len(r["runs"]) >= 2
                 and all(run[1] == r["runs"][0][1] for run in r["runs"])), None)
@@ -576,7 +629,7 @@ def corrupted(rows):
     a["runs"][1][1][2][1] = a["runs"][1][1][2][1] + [7]
     for run in b["runs"]:
         run[1][1][2]["tip"] = 7
-    return [(a, ["%s@3" % a["runs"][1][0]], True), (b, [], True)]
+    return [(a, ["%s@3" % a["runs"][1][0]], False), (b, [], True)]
 
 
 def judge(ctx, rows, chunk=400):
@@ -658,13 +711,17 @@ def run(ctx):
             if "novfs" not in m and not any(a[0] in VFS_OPS for a in p):
                 m.append("novfs")
             jobs.append((p, m))
+    # the shortest behaviours of the graph that show the known defect (stale_tag_cache_class), one per input class - so
+    # that every run of the check exercises it, whatever the sample
+    for p in KNOWN_DEFECT_PATHS:
+        jobs.append(([list(a) for a in p], ["local", "vfs"]))
     if not ctx.quick:
         # cross-check of the in-process medium: some behaviours also through a real SmartTCPServer on loopback
         for j in range(min(TCP_PATHS, len(jobs))):
             jobs[j] = (jobs[j][0], jobs[j][1] + ["tcp"])
         ctx.cov["tcp_paths"] = min(TCP_PATHS, len(jobs))
     ctx.cov["replayed_paths"] = len(jobs)
-    ctx.cov["exhaustive"] = len(jobs) == len(full) + len(nov)
+    ctx.cov["exhaustive"] = len(jobs) >= len(full) + len(nov)
     core.fork_map(ctx, replay_paths, jobs)
     rows = ctx.collected
     ctx.cov["smart_requests"] = sum(r["requests"] for r in rows)
